@@ -1,5 +1,6 @@
 import EinoV.Basic.JsonUtil
 import EinoV.Model.C13
+import EinoV.Model.C13Fwd
 import EinoV.Expected.C13
 
 namespace EinoV.Oracle.C13
@@ -31,12 +32,80 @@ def parseEvent (e : GoErr) (j : Json) : JE (Key × Act) := do
   | "done" => pure (k, .done)
   | a => throw s!"bad act {a}"
 
+
+/-- {"k":"canceled"} | {"k":"deadline"} | {"k":"custom","id":n} -/
+def parseCtxEnd (j : Json) : JE CtxEnd := do
+  match (← J.str j "k") with
+  | "canceled" => pure .canceled
+  | "deadline" => pure .deadline
+  | "custom" => pure (.custom (← J.nat j "id"))
+  | k => throw s!"bad ctx end {k}"
+
+/-- family ctxend: {"kind":"ctxend","levels":[…],"endAt":n,"ctxEnd":…,"targets":[ids]}
+    → "isT": errors.Is of the returned error against every target, "path", "interrupt" -/
+def handleCtxEnd (c : Json) : JE Json := do
+  let levels ← (← J.arr c "levels").mapM parseLevel
+  let endAt := J.natD c "endAt" 0
+  let ce ← parseCtxEnd (← J.field c "ctxEnd")
+  let targets ← J.natList c "targets"
+  let hu := Expected.C13.internalErrorHasUnwrap
+  let out := ctxEndThrough hu Expected.C13.loopReportsCtxErr levels endAt ce
+  pure <| Json.mkObj [
+    ("isT", J.mkArr (targets.map fun t => Json.bool (errorsIs hu out t))),
+    ("path", J.mkStrs (nodePath out)),
+    ("interrupt", Json.bool (isInterrupt hu out))]
+
+/-- {"k":"arr","items":[…]} | {"k":"pipe","items":[…]} | {"k":"conv","s":…,"panicOn":n?,"errOn":n?} |
+    {"k":"copy","s":…} | {"k":"merge","a":…,"b":…} -/
+partial def parseTree (j : Json) : JE STree := do
+  let optNat (k : String) : Option Nat := (J.fieldD j k Json.null).getNat?.toOption
+  match (← J.str j "k") with
+  | "arr" => pure (.arr ((J.arrD j "items").filterMap fun a => a.getNat?.toOption))
+  | "pipe" => pure (.pipe ((J.arrD j "items").filterMap fun a => a.getNat?.toOption))
+  | "conv" => do pure (.conv (← parseTree (← J.field j "s")) (optNat "panicOn") (optNat "errOn"))
+  | "copy" => do pure (.copy (← parseTree (← J.field j "s")))
+  | "merge" => do pure (.merge (← parseTree (← J.field j "a")) (← parseTree (← J.field j "b")))
+  | k => throw s!"bad tree kind {k}"
+
+def sortNats (l : List Nat) : List Nat := (l.toArray.qsort (· < ·)).toList
+
+def rtypeName : RType → String
+  | .array => "array" | .stream => "stream" | .multi => "multi" | .conv => "conv" | .child => "child"
+
+/-- family fwdtree: {"kind":"fwdtree","tree":…} → what the consumer of the reader receives
+    (multisets, sorted), how it ends, whether that is independent of the interleaving (`det`),
+    and which kind of forwarding goroutine caught a panic (`via`) -/
+def handleFwdTree (c : Json) : JE Json := do
+  let t ← parseTree (← J.field c "tree")
+  let f : FwdFacts := { convRecovers := Expected.C13.convForwarderRecovers,
+                        childRecovers := Expected.C13.childForwarderRecovers }
+  match build f t with
+  | none => pure <| Json.mkObj [("end", "crash")]
+  | some r =>
+    let items := r.evs.filterMap fun | .item v => some v | _ => none
+    let errs := r.evs.filterMap fun | .err v => some v | _ => none
+    let perrs := r.evs.filterMap fun | .perr v => some v | _ => none
+    let via := if r.contained.any (·.2) then "child" else if r.contained.isEmpty then "none" else "conv"
+    pure <| Json.mkObj [
+      ("end", match r.panics with | none => "eof" | some _ => "caller-panic"),
+      ("panicVal", match r.panics with | none => Json.null | some v => (v : Json)),
+      ("ty", rtypeName r.ty),
+      ("items", J.mkNats (sortNats items)),
+      ("errs", J.mkNats (sortNats errs)),
+      ("perrs", J.mkNats (sortNats perrs)),
+      ("det", Json.bool r.det),
+      ("via", via)]
+
 /-- case: {"levels":[…outermost first…],"err":…,"graphLevel":bool,"target":n}
     optional: "events":[…], "order":[keys]: the tasks of the step in which the failing node of
     the innermost level runs, as an interleaving of their user-code sites; the step model
     (`stepResult` with the expected facts) then decides whether the step is reported at all
     ("step": "reported" | "ok" | "hang" | "crash") and which error travels outwards. -/
 def handle (c : Json) : JE Json := do
+  match J.strD c "kind" "" with
+  | "ctxend" => handleCtxEnd c
+  | "fwdtree" => handleFwdTree c
+  | _ =>
   let levels ← (← J.arr c "levels").mapM parseLevel
   let e ← parseErr (← J.field c "err")
   let t ← J.nat c "target"
